@@ -34,7 +34,11 @@ REQUIRED = ["KV.C04.header_roundtrip", "KV.C04.magic_distinct", "KV.C04.recogniz
             "KV.C04.unk_padding", "KV.C04.load_layout_eq_write_layout", "KV.C04.stored_params_read",
             "KV.C04.bhiksha_array_roundtrip", "KV.C04.bhiksha_dont_roundtrip", "KV.C04.chop_bits_bounds",
             "KV.C04.array_table_in_block", "KV.C04.quant_exact", "KV.C04.QuantExample.quant_lossy_when_count_exceeds_bins",
-            "KV.C04.sanity_model_eq_probe", "KV.C04.total_header_table", "KV.C04.fixed_layout"]
+            "KV.C04.roundtrip_semantic", "KV.C04.file_roundtrip_layout", "KV.C04.no_uint8_wrap", "KV.C04.sanity_model_eq_probe", "KV.C04.total_header_table", "KV.C04.fixed_layout"]
+
+REQUIRED_TRIE = ["KV.C03Trie.trie_refines", "KV.C03Trie.trie_prob", "KV.C03Trie.trie_refines_of_check",
+                 "KV.C03Trie.quant_structural", "KV.C03Trie.table_structural", "KV.C03Trie.quant_structural_tries", "KV.C03Trie.ExamplePlain.represents", "KV.C03Trie.ExampleQuantArray.represents",
+                 "KV.C03Trie.ExampleBuilt.built_represents", "KV.C03Trie.ExampleBuilt.built_eq_real_file"]
 
 TYPE_NAMES = ["probing", "rest-probing", "trie", "quant-trie", "array-trie", "quant-array-trie"]
 
@@ -249,7 +253,85 @@ def run_case(ctx, pair, d, model, queries, ty, cfg, grid, count=True):
                 corr.append(("vocabulary strings are not at the offset / in the id order the layout model predicts",
                              {"offset": so, "disk": data[so:so + 40].hex(), "expected": blob[:40].hex()}))
     info["files"] = sh
+    if is_trie and enum_ref and count:
+        corr += trielm_stream(ctx, pair, model, ty, cfg, files["m1"], enum_ref, stored)
     return bad, corr, info
+
+
+def trielm_stream(ctx, pair, model, ty, cfg, path, enum_ref, stored):
+    """File bytes -> Lean TrieLM (offsets from the layout model) -> raw lookups along the chain of child ranges, compared
+    with the real TrieSearch::LookupUnigram/LookupMiddle/LookupLongest on the loaded file."""
+    mult, pb, bb, ab = cfg
+    with open(path, "rb") as f:
+        data = f.read()
+    if len(data) > 200000:
+        return []
+    rng = ctx.rng
+    ids = {}
+    for pr in enum_ref.split()[1:]:
+        i, hx = pr.split("=", 1)
+        ids[bytes.fromhex(hx).decode("utf-8", "replace")] = int(i)
+    qs = []
+    for k, ents in model["entries"].items():
+        for g, _ in ents:
+            q = [ids.get(w, 0) for w in g][::-1]
+            qs.append(q)
+            if rng.random() < 0.3:                       # a neighbour that is usually absent
+                qs.append(q[:-1] + [rng.randrange(0, len(ids))])
+    rng.shuffle(qs)
+    qs = qs[:250]
+    for _ in range(30):
+        qs.append([rng.randrange(0, len(ids)) for _ in range(rng.randrange(1, model["order"] + 1))])
+    hops = ["load T %d %s %d 0" % (ty, path, rng.randrange(4))] + ["trieq T " + " ".join(map(str, q)) for q in qs]
+    dops = ["trieload %d %d %d %d %d %s %s" % (ty, mult, pb, bb, ab, " ".join(map(str, stored)), data.hex())] + \
+           ["trieq " + " ".join(map(str, q)) for q in qs]
+    rc1, o1, e1 = pair.harness(hops)
+    rc2, o2, e2 = pair.driver(dops)
+    out = []
+    if rc1 != 0 or rc2 != 0 or len(o1) != len(hops) or len(o2) != len(dops):
+        return [("trielm stream could not run", {"rc": [rc1, rc2], "stderr": (e1 + e2)[-1500:]})]
+    # the verified checker on the real bytes: the file Represents the table of the python-side key set (n-grams + blanks by
+    # suffix closure), with the values / child ranges the real lookups report -> by check_sound + trie_refines, FullScore over
+    # these bytes = FullScore over that table.  Fails if a child range is unsorted, holds a record that is no key, or misses a key.
+    keys = set()
+    for k, ents in model["entries"].items():
+        for g, _ in ents:
+            g = tuple(g)
+            for j in range(len(g)):
+                keys.add(g[j:])
+    if not model["saw_unk"]:
+        keys.add(("<unk>",))
+    keys = sorted(keys, key=lambda g: (len(g), g))
+    if len(keys) <= 700:
+        kq = [[ids.get(w, 0) for w in g][::-1] for g in keys]
+        rc3, o3, e3 = pair.harness(["load T %d %s 0 0" % (ty, path)] + ["trieq T " + " ".join(map(str, q)) for q in kq])
+        toks = []
+        okk = rc3 == 0 and len(o3) == len(kq) + 1
+        if okk:
+            for q, line in zip(kq, o3[1:]):
+                last = line.split()[-1]
+                if last == "nf" or len(line.split()) != len(q) + 1:
+                    out.append(("an n-gram (or blank) of the model is not found by the real TrieSearch", {"key_ids": q, "impl": line}))
+                    okk = False
+                    break
+                parts = last.split(":")
+                toks.append(",".join(map(str, q)) + ":" + ":".join(parts[1:]))
+        if okk:
+            rc4, o4, e4 = pair.driver([dops[0], "triecheck %d %s" % (model["order"], " ".join(toks))], timeout=600)
+            ctx.count(("triecheck", ty, len(keys), o4[-1] if o4 else None), nontrivial=len(keys) > 8)
+            ctx.hist("triecheck", (o4[-1].split()[1] if o4 and o4[-1].startswith("triecheck") else "error"))
+            if rc4 != 0 or len(o4) != 2 or not o4[1].startswith("triecheck true"):
+                out.append(("the verified checker `TrieLM.check` rejects the real file: its bytes do not Represent the model's table",
+                            {"driver": o4[-1:] , "keys": len(keys), "stderr": e4[-500:]}))
+    for q, a, b in zip(qs, o1[1:], o2[1:]):
+        nf = a.endswith("nf")
+        ctx.count(("trielm", ty, tuple(q), a), nontrivial=len(q) >= 2)
+        ctx.hist("trielm.result", ("absent" if nf else "found") + str(len(q)))
+        if a != b:
+            out.append(("TrieLM lookup on the file's bytes differs from the real TrieSearch lookup",
+                        {"ngram_reversed_ids": q, "impl": a, "model": b}))
+            break
+    return out
 
 
 def full_grid():
@@ -317,7 +399,7 @@ def header_mutation_stream(ctx, pair, d, sample_file):
         data = bytearray(f.read())
     muts = []
     rng = ctx.rng
-    for i in range(24):
+    for i in range(30):
         b = bytearray(data)
         kind = i % 6
         if kind == 0:
@@ -330,7 +412,7 @@ def header_mutation_stream(ctx, pair, d, sample_file):
         elif kind == 3:
             b[49] = ord(rng.choice("4679"))
         elif kind == 4:
-            b[92:96] = struct.pack("<f", rng.choice([0.5, 0.999, -2.0, 1.0, float("nan")]))
+            b[92:96] = struct.pack("<f", [float("nan"), 0.999, -2.0, 1.0, 0.5][(i // 6) % 5])
         else:
             b[88] = rng.choice([0, 1, 7, 200])       # order byte: counts run past the end of small files
             b = b[:rng.choice([112, 136, len(b)])]
@@ -367,7 +449,15 @@ def run(ctx):
         problems.append("the tree does not build: " + lg[-2000:])
         flow.report_obligation_failures(ctx, problems, False)
         return
-    problems, consts = flow.proof_phase(ctx, "C04", probe="probe_C04.cc", probe_flags=flags, required=REQUIRED, drivers=["drv_C04"])
+    problems, consts = flow.proof_phase(ctx, "C04", probe="probe_C04.cc", probe_flags=flags, required=REQUIRED,
+                                        targets=["Properties.C04", "Properties.C03Trie"], drivers=["drv_C04"])
+    # the trie clause of C03 (Properties/C03Trie.lean) is owned by this builder: audited here as well
+    if not any("lake build failed" in p_ for p_ in problems):
+        o1, d1, t1 = ctx.cov["obligations"], ctx.cov["discharged"], list(ctx.cov.get("theorems", []))
+        problems += lean.audit(ctx, "C03Trie", REQUIRED_TRIE)
+        ctx.cov["obligations"] += o1
+        ctx.cov["discharged"] += d1
+        ctx.cov["theorems"] = t1 + ctx.cov.get("theorems", [])
     ok, hexe, lg = repo.harness("c04.cc", libs=True, config="asan")
     if not ok:
         problems.append(lg)
